@@ -139,11 +139,52 @@ fn radix_literal() -> BoxedStrategy<String> {
     .boxed()
 }
 
+/// Radix literals built to sit on a rounding boundary of the double format, with their value known *by construction*:
+/// a 53-bit significand m (top bit set), one round bit r, then k >= 11 tail bits (so that more than 64 significant bits
+/// follow one another) which are all zero, all one, a single one first / last, or mixed.  The exact value is
+/// (m*2 + r) * 2^k + tail; round-to-nearest-even gives m (+1 when r = 1 and (tail != 0 or m is odd)) times 2^(k+1).
+pub fn radix_rounding_case() -> BoxedStrategy<(String, f64)> {
+    (0u64..(1u64 << 52), any::<bool>(), 0u8..6, 11usize..=80, 0u8..3, any::<bool>(), any::<u64>(), 0usize..3).prop_map(|(low, r, tail_kind, k, radix_ix, upper, noise, lead_zero_digits)| {
+        let m: u64 = (1u64 << 52) | low;
+        let mut bits: Vec<u8> = (0..53).rev().map(|i| ((m >> i) & 1) as u8).collect();
+        bits.push(r as u8);
+        let tail: Vec<u8> = match tail_kind {
+            0 => vec![0; k],
+            1 => vec![1; k],
+            2 => (0..k).map(|i| (i == 0) as u8).collect(),
+            3 => (0..k).map(|i| (i == k - 1) as u8).collect(),
+            4 => (0..k).map(|i| (i == 10) as u8).collect(),
+            _ => (0..k).map(|i| ((noise >> (i % 64)) & 1) as u8).collect(),
+        };
+        let tail_nonzero = tail.iter().any(|b| *b == 1);
+        bits.extend(tail);
+        let up = r && (tail_nonzero || m & 1 == 1);
+        let rounded = if up { m + 1 } else { m };
+        let value = rounded as f64 * 2f64.powi(k as i32 + 1);
+        let (per, prefix) = match radix_ix {
+            0 => (1, if upper { "0B" } else { "0b" }),
+            1 => (3, if upper { "0O" } else { "0o" }),
+            _ => (4, if upper { "0X" } else { "0x" }),
+        };
+        let pad = (per - bits.len() % per) % per;
+        let mut all = vec![0u8; pad + lead_zero_digits * per];
+        all.extend(bits);
+        let digits: String = all.chunks(per).map(|c| {
+            let d = c.iter().fold(0u32, |a, b| (a << 1) | *b as u32);
+            let ch = std::char::from_digit(d, 16).unwrap_or('0');
+            if upper { ch.to_ascii_uppercase() } else { ch }
+        }).collect();
+        (format!("{}{}", prefix, digits), value)
+    })
+    .boxed()
+}
+
 /// The numeric-string grammar of DESIGN.md section 3: literals, traps, ES white space and look-alikes around them, junk suffixes.
 pub fn num_strings() -> BoxedStrategy<String> {
     let core = prop_oneof![
         5 => decimal_literal(),
         2 => radix_literal(),
+        1 => radix_rounding_case().prop_map(|(s, _)| s),
         3 => select(NUM_TRAPS.to_vec()).prop_map(|s| s.to_string()),
         1 => select(RADIX_EDGE.to_vec()).prop_map(|s| s.to_string()),
         1 => Just(String::new()),
